@@ -138,7 +138,7 @@ def ref_decode(coding, body):
 
 # ------------------------------------------------------------------ cases
 def base_specs(thorough):
-    sizes = (1, 5, 17, 70, 300) if thorough else (1, 5, 17)
+    sizes = (1, 5, 17, 70, 300) if thorough else (1, 5, 17, 70)
     out = []
     for size in sizes:
         for coding in ("identity", "gzip", "deflate", "zstd"):
